@@ -227,6 +227,7 @@ loop:
 		}
 	}
 	v.foundEOF()
+	v.tokens_.CloseQueue() // No more tokens will be added.
 }
 
 /*
